@@ -400,7 +400,7 @@ func (o *c12Op) opViaYAML() (pipeline.Action, error) {
 // ---------------------------------------------------------------- recording
 
 type c12Rec struct {
-	ev   [][]any   // events in wire form; "a" events carry a placeholder, fixed up by finish()
+	ev   [][]any // events in wire form; "a" events carry a placeholder, fixed up by finish()
 	errs []error // error of each "a" event (nil entries for the others)
 	snap []string
 	// snapshots: canonical data at OnBefore / OnAfter of ActionSpec actions (parallel to ev; "" elsewhere)
@@ -424,7 +424,7 @@ type c12ExtAct struct {
 	rec    *c12Rec
 }
 
-func (x *c12ExtAct) String() string                                  { return "xact:" + x.fn + ":" + x.id }
+func (x *c12ExtAct) String() string                                     { return "xact:" + x.fn + ":" + x.id }
 func (x *c12ExtAct) CloneWith(_ pipeline.ActionContext) pipeline.Action { return x }
 func (x *c12ExtAct) Do(ctx pipeline.ActionContext) error {
 	x.rec.add([]any{"r", x.id}, nil, "")
@@ -549,12 +549,20 @@ type c12TE struct {
 	rec   *c12Rec
 }
 
-func (t *c12TE) Render(tm string, d map[string]interface{}) (string, error) { return t.inner.Render(tm, d) }
-func (t *c12TE) RenderLenient(tm string, d map[string]interface{}) string   { return t.inner.RenderLenient(tm, d) }
+func (t *c12TE) Render(tm string, d map[string]interface{}) (string, error) {
+	return t.inner.Render(tm, d)
+}
+func (t *c12TE) RenderLenient(tm string, d map[string]interface{}) string {
+	return t.inner.RenderLenient(tm, d)
+}
 func (t *c12TE) RenderMapLenient(in map[string]interface{}, d map[string]interface{}) map[string]interface{} {
 	return t.inner.RenderMapLenient(in, d)
 }
 func (t *c12TE) EvalBool(tm string, d map[string]interface{}) (bool, error) {
+	if len(t.rec.ev) > 200000 {
+		// a loop that does not terminate would hang the harness: turn it into a reported panic
+		panic("runaway execution: more than 200000 events")
+	}
 	b, err := t.inner.EvalBool(tm, d)
 	if err != nil {
 		t.rec.add([]any{"t", tm, nil}, nil, "")
@@ -571,8 +579,8 @@ var (
 
 type c12Capture struct{ te *pipeline.TemplateEngine }
 
-func (c *c12Capture) OnBefore(ctx pipeline.ActionContext)            { *c.te = ctx.TemplateEngine() }
-func (c *c12Capture) OnAfter(pipeline.ActionContext, error)          {}
+func (c *c12Capture) OnBefore(ctx pipeline.ActionContext)          { *c.te = ctx.TemplateEngine() }
+func (c *c12Capture) OnAfter(pipeline.ActionContext, error)        {}
 func (c *c12Capture) OnLog(pipeline.ActionContext, ...interface{}) {}
 
 // c12Engine returns the library's own default TemplateEngine (unexported type), captured from a context.
@@ -717,10 +725,10 @@ type c12TNode struct {
 	err   error
 	hasE  bool
 	kids  []*c12TNode // nested before/after pairs
-	leafs []any      // r / l / t events directly inside, in order (interleaving with kids not kept)
-	seq   []any      // everything directly inside, in order: *c12TNode or event
-	first int        // index of the before event
-	last  int        // index of the after event
+	leafs []any       // r / l / t events directly inside, in order (interleaving with kids not kept)
+	seq   []any       // everything directly inside, in order: *c12TNode or event
+	first int         // index of the before event
+	last  int         // index of the after event
 }
 
 // c12Parse checks the Dyck property: every OnBefore(a) is closed by exactly one OnAfter(a, ·), properly nested.
